@@ -112,13 +112,15 @@ PROPS["C11"] = {
                 "through CBMC"),
 }
 PROPS["C15"] = {
-    "quick": [{"name": "splits", "harnesses": ["c15_w_buy_split_sale", "c15_w_sale_split_buy", "c01_split_a0_m1"], "jobs": 3,
+    "quick": [{"name": "splits", "harnesses": ["c15_w_buy_split_sale", "c15_w_sale_split_buy", "c15_w_otherbuy_othersplit_sale"], "jobs": 3,
                "mem_gb": 28, "harness_timeout_s": 2400, "cbmc_args": ["--max-field-sensitivity-array-size", "400"]}],
-    "thorough": [{"name": "splits", "harnesses": ["c15_w_buy_split_sale", "c15_w_sale_split_buy"] + C01_SPLIT, "jobs": 3, "mem_gb": 28,
+    "thorough": [{"name": "splits", "harnesses": ["c15_w_buy_split_sale", "c15_w_sale_split_buy", "c15_w_otherbuy_othersplit_sale"] + C01_SPLIT, "jobs": 3, "mem_gb": 28,
                   "timeout_s": 20000, "harness_timeout_s": 6000}],
     "functions": WINDOW_FUNCS + ["delta_for_tx (Split arm)", "SplitRatio::pre_to_post_factor"],
-    "bounds": ("window: Buy x, m-for-1 split (m 1..3), loss sale; buy and split at symbolic offsets 0..35/0..45 days "
-               "before the sale; step: a-for-b split, a,b in 1..9, balances in tenths of a share; " + WINDOW_BOUNDS),
+    "bounds": ("window shapes: Buy x, m-for-1 split (m 1..3), loss sale [by the seller, or both by another affiliate]; "
+               "loss sale (possibly of everything), 2-for-1 or 1-for-1 split, Buy y; rows at symbolic offsets 0..35/0..45 "
+               "days on their side of the sale; thorough adds the Split step: a-for-b, a,b in 1..9, balances in tenths "
+               "of a share; " + WINDOW_BOUNDS),
     "outside": ("restating a whole history and comparing the two runs (pipeline level) was not encoded: the claim is the "
                 "per-row Split rule (shares x a/b, total cost unchanged) and the split-adjusted window counts; reverse "
                 "and fractional ratios inside the window are only in the C04 look-ahead harness; global-split expansion "
@@ -198,10 +200,11 @@ CLAIMS = {
         "design_ref": "DESIGN.md 0, 5 C11",
     },
     "C15": {
-        "text": ("Bounded model checking of (a) the Split row: balance x post/pre, all-affiliate total adjusted by the "
-                 "difference, total cost unchanged, fractional result of a whole-number reverse split rejected; (b) the "
-                 "window scan with a split between an acquisition and the loss sale at symbolic offsets: acquired shares "
-                 "counted in the sale's split period, same verdict and ratio as the statement's restated history."),
+        "text": ("Bounded model checking of the window scan with a split on either side of the loss sale at symbolic "
+                 "offsets (split of the seller's or of another affiliate's shares between an acquisition and the sale; "
+                 "sale, split, re-purchase): acquired and held shares are counted in the sale's split period, giving the "
+                 "same verdict and ratio as the statement's restated history. Thorough adds the Split row itself (balance x "
+                 "post/pre, all-affiliate total adjusted, total cost unchanged), which the quick tiers of C01/C04 also run."),
         "note": (TRUSTED + "Value-neutrality of a whole restated history is argued from these two lemmas (per-row rule + "
                  "window counts), not run end to end. The look-ahead with inexact ratios is finding F1 (C04)."),
         "design_ref": "DESIGN.md 0, 5 C15",
